@@ -160,6 +160,7 @@ type outcome struct {
 	hint      time.Duration
 	network   bool // connection closed: retryable only when the client sees a temporary error
 	partial   bool
+	longMsg   int // partial success: pad the rejection message to this many bytes
 }
 
 func httpOutcome(code int, retryAfter int) outcome {
@@ -248,7 +249,8 @@ type row struct {
 	cancel      string // "", "before", "during-delay", "during-backoff", "shutdown-during-backoff"
 	table       string
 	longBackoff bool
-	noTimeout   bool // WithTimeout(0): no per-export deadline, only cancellation can end a wait
+	noTimeout   bool          // WithTimeout(0): no per-export deadline, only cancellation can end a wait
+	age         time.Duration // let the exporter exist this long before the export (longer than MaxElapsedTime)
 }
 
 func (rw row) String() string {
@@ -256,7 +258,7 @@ func (rw row) String() string {
 	for _, o := range rw.seq {
 		names = append(names, o.name)
 	}
-	return fmt.Sprintf("%s table=%s retry={enabled=%v maxElapsed=%v} gzip=%v cancel=%q timeout-disabled=%v responses=[%s]", rw.kind, rw.table, rw.rc.Enabled, rw.rc.MaxElapsed, rw.gz, rw.cancel, rw.noTimeout, strings.Join(names, " ; "))
+	return fmt.Sprintf("%s table=%s retry={enabled=%v maxElapsed=%v} gzip=%v cancel=%q timeout-disabled=%v exporter-age=%v responses=[%s]", rw.kind, rw.table, rw.rc.Enabled, rw.rc.MaxElapsed, rw.gz, rw.cancel, rw.noTimeout, rw.age, strings.Join(names, " ; "))
 }
 
 func runRow(k *vf.Case, rw row) {
@@ -267,6 +269,12 @@ func runRow(k *vf.Case, rw row) {
 			resp := seq[r.N-1].resp
 			if seq[r.N-1].partial {
 				resp.PartialMsg = "rejected-" + token
+				if n := seq[r.N-1].longMsg; n > 0 {
+					resp.PartialMsg += " " + strings.Repeat("x", n)
+				}
+			}
+			if rw.cancel == "shutdown-during-delay" && r.N == 1 {
+				resp.Delay = 2 * time.Second // the attempt stays in flight for 2 s unless it is aborted
 			}
 			if rw.cancel == "during-delay" && r.N == 1 {
 				resp.HoldUntilClientGone = true
@@ -300,6 +308,9 @@ func runRow(k *vf.Case, rw row) {
 		k.Violate("exporter-constructor-error", rw.kind, err.Error(), nil)
 		return
 	}
+	if rw.age > 0 {
+		time.Sleep(rw.age)
+	}
 	fail := func(class, key, detail string) {
 		var tl []string
 		reqs := srv.Requests()
@@ -331,7 +342,7 @@ func runRow(k *vf.Case, rw row) {
 			time.Sleep(20 * time.Millisecond)
 			cancel()
 		}()
-	case "shutdown-during-backoff":
+	case "shutdown-during-backoff", "shutdown-during-delay":
 		go func() {
 			for i := 0; i < 2000 && srv.Count() == 0; i++ {
 				time.Sleep(time.Millisecond)
@@ -359,7 +370,7 @@ func runRow(k *vf.Case, rw row) {
 	// quiet afterwards: nothing may arrive once Export has returned
 	n0 := srv.Count()
 	time.Sleep(30 * time.Millisecond)
-	if rw.cancel != "shutdown-during-backoff" {
+	if !strings.HasPrefix(rw.cancel, "shutdown-") {
 		sctx, scancel := context.WithTimeout(context.Background(), 5*time.Second)
 		x.shutdown(sctx)
 		scancel()
@@ -381,7 +392,7 @@ func runRow(k *vf.Case, rw row) {
 	// ---- Shutdown while an Export waits: the metric and log exporters (and the gRPC trace client with
 	// a live context) serialise Shutdown behind the in-flight Export by design, so the clause is: once
 	// Shutdown has returned no request arrives and the in-flight Export has returned (or does so at once).
-	if rw.cancel == "shutdown-during-backoff" {
+	if strings.HasPrefix(rw.cancel, "shutdown-") {
 		for i := 0; i < 5000; i++ {
 			shutdownMu.Lock()
 			done := !shutdownRet.IsZero()
@@ -411,7 +422,11 @@ func runRow(k *vf.Case, rw row) {
 				if len(reqs) != 1 {
 					fail("retry-after-shutdown", rw.cancel, fmt.Sprintf("%d requests although the exporter was stopped during a wait of at least 2.5 s", len(reqs)))
 				}
-				if took > 3*time.Second {
+				limit := 3 * time.Second
+				if rw.cancel == "shutdown-during-delay" {
+					limit = 1500 * time.Millisecond // the collector answers after 2 s: an aborted attempt returns well before
+				}
+				if took > limit {
 					fail("export-blocked-beyond-shutdown", rw.cancel, took.String())
 				}
 			}
@@ -483,6 +498,9 @@ func runRow(k *vf.Case, rw row) {
 		finalSuccess = true
 	}
 	expectMin = expectMax
+	if rw.rc.MaxElapsed != 0 && took > rw.rc.MaxElapsed/2 && mayGiveUpFrom == 0 {
+		mayGiveUpFrom = 1 // this Export call itself ran for a good part of the budget (load): giving up is legitimate
+	}
 	if mayGiveUpFrom != 0 && mayGiveUpFrom < expectMin {
 		expectMin = mayGiveUpFrom
 	}
@@ -672,6 +690,12 @@ func tableA() []row {
 			ch.name += " (chunked, no Content-Length)"
 			rows = append(rows, row{kind: kind, seq: []outcome{ch}, rc: on, table: "A"})
 			rows = append(rows, row{kind: kind, seq: []outcome{httpOutcome(503, 0), ch}, rc: on, table: "A"})
+			for _, n := range []int{5000, 70000} {
+				lp := partialOutcome(true, "")
+				lp.longMsg = n
+				lp.name += fmt.Sprintf(" of %d bytes", n)
+				rows = append(rows, row{kind: kind, seq: []outcome{lp}, rc: on, table: "A", gz: n > 10000})
+			}
 			rows = append(rows, row{kind: kind, seq: []outcome{httpOutcome(503, 0)}, rc: retryCfg{Enabled: false}, table: "A"})
 		} else {
 			for _, c := range grpcCodes {
@@ -681,12 +705,27 @@ func tableA() []row {
 				}
 			}
 			rows = append(rows, row{kind: kind, seq: []outcome{partialOutcome(false, "")}, rc: on, table: "A"})
+			for _, n := range []int{5000, 70000} {
+				lp := partialOutcome(false, "")
+				lp.longMsg = n
+				lp.name += fmt.Sprintf(" of %d bytes", n)
+				rows = append(rows, row{kind: kind, seq: []outcome{lp}, rc: on, table: "A"})
+			}
 			// budget rows: after two waits of h the third hint no longer fits into 2.5*h: give up after 3 attempts
 			for _, h := range []time.Duration{100 * time.Millisecond, 160 * time.Millisecond} {
 				o := grpcOutcome(codes.Unavailable, h)
 				rows = append(rows, row{kind: kind, seq: []outcome{o, o, o, o, o}, rc: retryCfg{Enabled: true, MaxElapsed: h * 5 / 2}, table: "A"})
 			}
 			rows = append(rows, row{kind: kind, seq: []outcome{grpcOutcome(codes.Unavailable, 0)}, rc: retryCfg{Enabled: false}, table: "A"})
+		}
+		// an exporter that has existed for longer than MaxElapsedTime: the budget is per export, so a retryable
+		// outcome followed by success must still be retried
+		{
+			first := httpOutcome(503, 0)
+			if !isHTTP(kind) {
+				first = grpcOutcome(codes.Unavailable, 0)
+			}
+			rows = append(rows, row{kind: kind, seq: []outcome{first}, rc: retryCfg{Enabled: true, MaxElapsed: 1500 * time.Millisecond}, table: "A", age: 1700 * time.Millisecond})
 		}
 	}
 	return rows
@@ -708,6 +747,7 @@ func tableC() []row {
 		rows = append(rows, row{kind: kind, seq: []outcome{ok}, rc: on, cancel: "during-delay", table: "C"})
 		rows = append(rows, row{kind: kind, seq: []outcome{slow}, rc: on, cancel: "during-backoff", table: "C", longBackoff: true})
 		rows = append(rows, row{kind: kind, seq: []outcome{slow}, rc: on, cancel: "shutdown-during-backoff", table: "C", longBackoff: true})
+		rows = append(rows, row{kind: kind, seq: []outcome{ok}, rc: on, cancel: "shutdown-during-delay", table: "C"})
 		// the same with the per-export timeout switched off: cancellation is then the only way out of a wait
 		rows = append(rows, row{kind: kind, seq: []outcome{ok}, rc: on, cancel: "during-delay", table: "C", noTimeout: true})
 		rows = append(rows, row{kind: kind, seq: []outcome{slow}, rc: on, cancel: "during-backoff", table: "C", longBackoff: true, noTimeout: true})
